@@ -35,13 +35,23 @@ struct TokenInfo
       , idx(0)
       , row(1)
       , col(1)
+      , cr_counted(false)
    {
+      for (size_t &count : le_counts)
+      {
+         count = 0;
+      }
    }
 
    size_t last_ch;
    size_t idx;
    size_t row;
    size_t col;
+
+   //! line-end census of everything read so far outside disabled regions;
+   //! it lives here so that backtracking takes back what it counted
+   size_t le_counts[uncrustify::line_end_styles];
+   bool   cr_counted;                  //! the '\r' read last was counted as CR
 };
 
 
@@ -117,23 +127,40 @@ struct TokenContext
             {
                c.row++;
                c.col = 1;
+
+               if (!cpd.unc_off)
+               {
+                  ++c.le_counts[static_cast<size_t>(LE_LF)];
+               }
+            }
+            else if (c.cr_counted)
+            {
+               // the CR was the first half of a CRLF
+               --c.le_counts[static_cast<size_t>(LE_CR)];
+               ++c.le_counts[static_cast<size_t>(LE_CRLF)];
             }
             break;
 
          case '\r':
             c.row++;
-            c.col = 1;
+            c.col        = 1;
+            c.cr_counted = !cpd.unc_off;
+
+            if (c.cr_counted)
+            {
+               ++c.le_counts[static_cast<size_t>(LE_CR)];
+            }
             break;
 
          default:
             c.col++;
             break;
-         }
+         } // switch
          c.last_ch = ch;
          return(ch);
       }
       return(0);
-   }
+   } // get
 
 
    bool expect(size_t ch)
@@ -614,21 +641,10 @@ static bool parse_comment(TokenContext &ctx, Chunk &pc)
             pc.SetType(CT_COMMENT_MULTI);
             pc.SetNlCount(pc.GetNlCount() + 1);
 
-            if (ch == '\r')
+            if (  ch == '\r'
+               && ctx.peek() == '\n')
             {
-               if (ctx.peek() == '\n')
-               {
-                  ++LE_COUNT(CRLF);
-                  pc.Str().append(ctx.get());  // store the '\n'
-               }
-               else
-               {
-                  ++LE_COUNT(CR);
-               }
-            }
-            else
-            {
-               ++LE_COUNT(LF);
+               pc.Str().append(ctx.get());  // store the '\n'
             }
          }
       }
@@ -674,21 +690,10 @@ static bool parse_comment(TokenContext &ctx, Chunk &pc)
             pc.SetType(CT_COMMENT_MULTI);
             pc.SetNlCount(pc.GetNlCount() + 1);
 
-            if (ch == '\r')
+            if (  ch == '\r'
+               && ctx.peek() == '\n')
             {
-               if (ctx.peek() == '\n')
-               {
-                  ++LE_COUNT(CRLF);
-                  pc.Str().append(ctx.get());  // store the '\n'
-               }
-               else
-               {
-                  ++LE_COUNT(CR);
-               }
-            }
-            else
-            {
-               ++LE_COUNT(LF);
+               pc.Str().append(ctx.get());  // store the '\n'
             }
          }
       }
@@ -1839,24 +1844,13 @@ static bool parse_whitespace(TokenContext &ctx, Chunk &pc)
       switch (ch)
       {
       case '\r':
-
-         if (ctx.expect('\n'))
-         {
-            // CRLF ending
-            ++LE_COUNT(CRLF);
-         }
-         else
-         {
-            // CR ending
-            ++LE_COUNT(CR);
-         }
+         ctx.expect('\n');                // CRLF ending
          nl_count++;
          pc.SetOrigPrevSp(0);
          break;
 
       case '\n':
          // LF ending
-         ++LE_COUNT(LF);
          nl_count++;
          pc.SetOrigPrevSp(0);
          break;
@@ -2904,6 +2898,15 @@ void tokenize(const deque<int> &data, Chunk *ref)
                  __func__, __LINE__, pc->GetOrigLine(), pc->GetOrigCol(), pc->ElidedText(copy), get_token_name(pc->GetType()), pc->GetOrigColEnd());
       }
    }
+
+   // Every line end of the input (in code, comments, continuations and
+   // literals alike, but not inside disabled regions) has been counted by
+   // the reader
+   for (size_t i = 0; i < uncrustify::line_end_styles; i++)
+   {
+      cpd.le_counts[i] += ctx.c.le_counts[i];
+   }
+
    // Set the cpd.newline string for this file
    log_rule_B("newlines");
 
